@@ -3,7 +3,8 @@
  * into one heap block: CBMC's exact array_copy model does not finish on
  * several symbolic-length updates of one object, HOWTO "memcpy/memmove").
  *
- *  - n <= 16 (the 4/8-byte copies of the header/mask code): exact byte loop;
+ *  - copies whose length is a compile-time constant (the 4/8-byte copies of
+ *    the header/mask code) stay with CBMC's exact built-in model;
  *  - otherwise: the same preconditions are checked (regions readable /
  *    writeable), then ONLY the n destination bytes are havocked and the byte
  *    whose offset INSIDE THE DESTINATION OBJECT is the ghost index g_k is
@@ -23,11 +24,7 @@ wsf_memcpy(void *dst, const void *src, size_t n)
 	__CPROVER_assert(__CPROVER_w_ok(dst, n), "memcpy destination region writeable");
 	const uint8_t *s = (const uint8_t *) src;
 	uint8_t       *d = (uint8_t *) dst;
-	if (n <= 16) {
-		for (size_t i = 0; i < n; i++) {
-			d[i] = s[i];
-		}
-	} else {
+	if (n > 0) {
 		size_t  off  = (size_t) __CPROVER_POINTER_OFFSET(d);
 		bool    here = (g_k >= off && g_k - off < n);
 		uint8_t bk   = here ? s[g_k - off] : 0;
@@ -38,6 +35,6 @@ wsf_memcpy(void *dst, const void *src, size_t n)
 	}
 	return (dst);
 }
-#define memcpy wsf_memcpy
+#define memcpy(d, s, n) (__builtin_constant_p(n) ? (memcpy)((d), (s), (n)) : wsf_memcpy((d), (s), (n)))
 #endif
 #endif
